@@ -29,6 +29,12 @@ CHECKS = {
    text="For every faulty layer the spec computes the set of error reports the property admits (every real fault of that layer: layer name, required_len, len, admissible len_source set, true offset; offending value for content errors). TLC checks ErrShape on the spec; every Err and every lax stop_err of all 26 entry points must be a member of that set. Two listed known findings (MACsec/ARP len_source) are separate deviation disjuncts.",
    note=DEC_NOTE),
 }
+CHECKS['C11'] = dict(cat='model_checking', tech='TLA+ pool model: TLC exhaustive over all delivery histories in bounds + simulation-generated histories replayed + step-wise trace validation',
+   text="spec/Defrag.tla models the pool with its buffers' stale contents. TLC explores ALL delivery histories within the bound (2 streams, 5-7 deliveries incl. duplicates, interleavings, inconsistent fragments, caller-returned poisoned buffers, eviction with reuse) and checks NoLeak, Released, SectionsCanonical, RangesHoldData, NoMix in every state and the step properties ReturnExact/NoEarlyReturn (a payload is returned exactly by the delivery that supplies the last missing byte, real fragments are never rejected) and RejectsInconsistent. Binding: histories from tlc -simulate on the same module and seeded long histories with datagrams up to 2000 bytes are executed on a real IpDefragPool (IPv4 and IPv6 packets, stream ids differing in one component); the return value of EVERY delivery and the pool occupancy (hook H3) are validated step by step by Trace_Defrag, which also evaluates the invariants in every state the real execution passes through.",
+   note="Exhaustive only within the stated bounds; datagrams <= 27 bytes in the exhaustive/simulated part. Allocation failure is not injected. The direct IpDefragBuf API is exercised through the pool only.")
+CHECKS['C12'] = dict(cat='model_checking', tech='TLA+ walk machine: TLC over all link configurations + every configuration replayed into all five walkers',
+   text="spec/ExtChain.tla is the single walk machine behind write_internal / next_header / set_next_headers / header_len / from_slice. TLC enumerates every configuration (six slots absent or linking to a value of {0,60,43,44,51,17}, every first header; quick: at most 3 headers present, thorough: all 619 458) and checks Total, NoSilentDrop, SetThenWalk (RFC 8200 order), DecodeInverse. Every configuration is then executed on the real Ipv6Extensions, IpHeaders, NetHeaders and Ipv4Extensions; Trace_ExtChain compares verdicts, error kinds, written bytes (independent wire walk), announced lengths, the re-decoded struct and the returned ether types with the model, and write-iff-walk pairwise.",
+   note="Extension payload contents are out of scope here (C08). Values outside the link alphabet are only sampled (seeded).")
 PENDING = {
 }
 NA = []
